@@ -10,6 +10,7 @@ def obligations(tier):
                          param_grid=[dict(min_freq=0.5), dict(min_freq=0.25), dict(min_freq=0.2)] + ([] if quick else [dict(min_freq=0.34), dict(min_freq=0.15)])),
         k_categorical.obligation(tier, {"C09"}, "O9.4 a categorical value is in the default group iff it is rarer than min_freq; NaN stays separate"),
         k_ordinal.obligation(tier, {"C09"}, "O9.1 ordinal buckets hold >= min_freq of the rows (or one bucket remains); NaN stays its own modality; min_freq symbolic in (0,0.5]"),
+        k_quantiles.obligation_profile(tier, "O9.5 ContinuousDiscretizer on larger samples given by solver-chosen multiplicity profiles: boundaries, frequent values and the 2.5/q bucket bound"),
         k_quantiles.obligation(tier, {"C09", "C03"}, "O9.2 ContinuousDiscretizer boundaries: strictly increasing observed values then +inf; frequent values are boundaries; bucket-size bound",
                                ["sorted", "perm"]),
     ]
